@@ -211,3 +211,40 @@ pub(crate) mod o_dt {
         }
     }
 }
+
+// ---------------------------------------------------------------- O-str (executable, byte level)
+// Prefix decoder for a basic string at the start of `s`: Some((decoded bytes, bytes consumed))
+// when `s` starts with a complete basic-string token, None otherwise.  `\u`/`\U` escapes are
+// decoded to UTF-8; a surrogate or out-of-range code point makes the token invalid.
+#[allow(dead_code)]
+pub(crate) mod o_str {
+    use super::o_class;
+    use super::o_esc;
+
+    pub(crate) fn push_scalar(out: &mut Vec<u8>, v: u32) {
+        if v < 0x80 { out.push(v as u8); }
+        else if v < 0x800 { out.push(0xC0 | (v >> 6) as u8); out.push(0x80 | (v & 0x3F) as u8); }
+        else if v < 0x10000 { out.push(0xE0 | (v >> 12) as u8); out.push(0x80 | ((v >> 6) & 0x3F) as u8); out.push(0x80 | (v & 0x3F) as u8); }
+        else { out.push(0xF0 | (v >> 18) as u8); out.push(0x80 | ((v >> 12) & 0x3F) as u8); out.push(0x80 | ((v >> 6) & 0x3F) as u8); out.push(0x80 | (v & 0x3F) as u8); }
+    }
+
+    pub(crate) fn dec_basic_prefix(s: &[u8]) -> Option<(Vec<u8>, usize)> {
+        if s.is_empty() || s[0] != 0x22 { return None; }
+        let mut out = Vec::new();
+        let mut i = 1;
+        while i < s.len() {
+            let c = s[i];
+            if c == 0x22 { return Some((out, i + 1)); }
+            if o_class::basic_unescaped(c) { out.push(c); i += 1; continue; }
+            if c != 0x5c || i + 1 >= s.len() { return None; }
+            let e = s[i + 1];
+            if let Some(ch) = o_esc::escape_value(e) { out.push(ch as u8); i += 2; continue; }
+            let n = if e == b'u' { 4 } else if e == b'U' { 8 } else { return None; };
+            if i + 2 + n > s.len() { return None; }
+            let v = o_esc::hex_scalar(&s[i + 2..i + 2 + n])?;
+            push_scalar(&mut out, v);
+            i += 2 + n;
+        }
+        None
+    }
+}
